@@ -22,6 +22,7 @@ from simkit.world import StreamPlan, World
 PROP = "C19"
 LEVEL = "fault_enumeration"
 HASHSEED_VARIES = True
+RUN_WALL_S = 20  # a run takes ~30 ms; a pool that is never pumped must not stall the batch for a minute
 TIERS = {"quick": 2400, "thorough": 60000}
 RULE = (
     "one run = one directory layout (1-3 roots; nested, empty and trap directories; 0-12 .swc files per root "
